@@ -226,6 +226,8 @@ smtp_ehlo(void)
 	msg[next++] = "250-CHUNKING\r\n";
 #endif
 
+	freedata();
+
 	switch (helovalid(linein.s + 5, linein.len - 5)) {
 	case -1:
 		return errno;
